@@ -52,10 +52,10 @@ type shape struct {
 	Name  string
 	Sizes []int // payload sizes of the entries appended (nil: no entries)
 	// Content < 0: rotate with the position in the history
-	Content int
-	NoState bool   // append with an empty HardState
-	LongOnly bool  // used by the hand-shaped histories only (not part of the enumerated alphabet)
-	Kind    string // append | hs-commit | hs-term | overwrite | snap | reopen
+	Content  int
+	NoState  bool   // append with an empty HardState
+	LongOnly bool   // used by the hand-shaped histories only (not part of the enumerated alphabet)
+	Kind     string // append | hs-commit | hs-term | overwrite | snap | reopen
 }
 
 var shapes = []shape{
@@ -114,16 +114,16 @@ type hmodel struct {
 	last               uint64
 	terms              []uint64 // term of entry i+1
 	snapIdx, snapTerm  uint64
-	pos                int // operations applied so far (rotates payload contents)
+	pos                int              // operations applied so far (rotates payload contents)
 	prevHS             raftpb.HardState // last non-empty HardState passed to Save (raft's view)
 	wstate             raftpb.HardState // mirror of WAL.state (reset by reopen)
 	recs               []lrec
 	seg                int
 	// ack bookkeeping
-	ackedRecs  int    // number of leading records that completed calls were obliged to make durable
-	ackedSnap  uint64 // newest snapshot index whose SaveSnap returned
-	walSnapAck uint64 // newest snapshot index whose SaveSnap and wal.SaveSnapshot both returned
-	snaps      map[uint64][]byte // index -> marshalled raftpb.Snapshot written by SaveSnap
+	ackedRecs       int               // number of leading records that completed calls were obliged to make durable
+	ackedSnap       uint64            // newest snapshot index whose SaveSnap returned
+	walSnapAck      uint64            // newest snapshot index whose SaveSnap and wal.SaveSnapshot both returned
+	snaps           map[uint64][]byte // index -> marshalled raftpb.Snapshot written by SaveSnap
 	commitOnlyLossy int
 }
 
@@ -269,7 +269,7 @@ type runner struct {
 	rec     *recorder
 	seg     int64
 	// per-operation bookkeeping: index of the observation taken at the return of op i
-	retObs []int
+	retObs   []int
 	totalRec []int // records written through call slot i (0 = Create, i+1 = op i, last = final Close)
 	steps    []step
 	selfErr  string // harness self-check failure on the uncrashed run (reopen read-back)
@@ -406,7 +406,9 @@ type apiError struct {
 	err  error
 }
 
-func (e *apiError) Error() string { return fmt.Sprintf("%s (op %d) failed without any fault: %v", e.call, e.op, e.err) }
+func (e *apiError) Error() string {
+	return fmt.Sprintf("%s (op %d) failed without any fault: %v", e.call, e.op, e.err)
+}
 
 // opDone stamps the acknowledgement levels reached by the completed call and observes.
 func (r *runner) opDone(label string, must bool) {
